@@ -531,6 +531,60 @@ def check_C17(ctx, deep=False):
         ctx.notes.append("engine binary unavailable")
         return
     lifecycle_sessions(ctx, 30 if ctx.quick else 400)
+    ending_sessions(ctx)
+
+
+ENDING_TAILS = [b"", b"\n", b"\n\n\n", b"   \n", b"\t\n", b"\r\n", b" \t \r\n", b"   ", b"\t", b"\r", b"isrea", b"isready",
+                b"foo\n", b"foo", b"foo   ", b"\xc3\xa9\n", b"\xe3\x80\x80\n", b"go", b"\n   ", b"   \n\n", b"xyzzy 1 2\n\n"]
+ENDING_CONTEXTS = [
+    ("handshake-only", []),
+    ("after-isready", ["isready"]),
+    ("after-garbage", ["", "foo bar", "   ", "isready"]),
+    ("after-go", ["position startpos moves e2e4", "go wtime 0 btime 0", "isready"]),
+]
+# (an unterminated "quit" with standard input still open is not a line yet: the engine rightly waits)
+QUIT_FORMS = [b"quit\n", b"  quit  \n", b"\n\nquit\n", b"   \nquit\n", b"\tquit\t\r\n", b"foo\nquit\n", b"quit\nfoo"]
+
+
+def ending_sessions(ctx):
+    """EXHAUSTIVE over (context before) x (last bytes written before standard input is closed), plus
+    every spelling of quit: the process must exit promptly — whatever the last line looked like
+    (complete, blank, whitespace only, unterminated, partial command, multi-byte)."""
+    plans = [("eof", cn, cl, t) for cn, cl in ENDING_CONTEXTS for t in ENDING_TAILS]
+    plans += [("quit", cn, cl, t) for cn, cl in ENDING_CONTEXTS for t in QUIT_FORMS]
+
+    def one(plan):
+        kind, cname, clines, tail = plan
+        e = S.Engine()
+        try:
+            if not S.handshake(e):
+                return ("no-handshake", plan)
+            for l in clines:
+                e.send(l)
+            if "isready" in clines:
+                _, ok = e.read_until(lambda l: l == "readyok", 5.0)
+                if not ok:
+                    return ("isready-unanswered", plan)
+            e.send_raw(tail)
+            if kind == "eof":
+                e.close_stdin()
+            rc = e.wait_exit(3.0)
+            if rc is None:
+                # confirm once more with a longer wait before calling it a violation (loaded sandbox)
+                rc = e.wait_exit(4.0)
+            if rc is None:
+                return ("did-not-exit", plan)
+            return ("ok", plan)
+        finally:
+            e.kill()
+    for kind, plan in S.run_parallel(one, plans, workers=12):
+        ctx.count("ending_sessions")
+        ctx.case(("ending", plan[0], plan[1], plan[3]), plan[3].strip() == b"" or not plan[3].endswith(b"\n"))
+        if kind == "no-handshake" or kind == "isready-unanswered":
+            ctx.fail("ending-" + kind, how=plan[0], context=plan[1], last_bytes=repr(plan[3]))
+        elif kind == "did-not-exit":
+            ctx.fail(("eof" if plan[0] == "eof" else "quit") + "-did-not-exit", context=plan[1], context_lines=plan[2],
+                     last_bytes=repr(plan[3]), note="process still running 7 s after " + ("standard input was closed" if plan[0] == "eof" else "quit was written"))
 
 
 def unesc(s):
@@ -647,7 +701,13 @@ def parse_search(body):
     for part in body.split("~"):
         k, _, v = part.partition("=")
         d[k] = v
-    d["sent_list"] = [x for x in d.get("sent", "").split(";") if x]
+    allsent = [x for x in d.get("sent", "").split(";") if x]
+    # (since fix 3ef6069) the first board on the channel is the fall-back move handed over before the
+    # first evaluation starts; `sent_list` keeps its old meaning: the improvements (or the repeated
+    # fall-back move when the clock expires before any evaluation completes)
+    d["fallback"] = allsent[0] if allsent else None
+    d["all_sent"] = allsent
+    d["sent_list"] = allsent[1:]
     d["info_list"] = [x for x in d.get("info", "").split(";") if x]
     return d
 
@@ -702,6 +762,15 @@ def search_positions(ctx, n, plies, sop, with_rep=True):
     return ops
 
 
+def forced_positions(ctx, n, sop):
+    """positions in which the side to move has exactly one / exactly two legal moves (forced replies,
+    found by the SPEC along checking playouts), each with the given search op: the root loop's
+    fall-back and early-exit paths look different when the move list is this short"""
+    ops = C.genops("fewmoves", ctx.seed + 11, n, 1, 60, "gen_all", sop.replace(" ", "_"))
+    ops += C.genops("fewmoves", ctx.seed + 12, max(2, n // 2), 2, 60, "gen_all", sop.replace(" ", "_"))
+    return ops
+
+
 def group_by_pos(res):
     """yield (pos_result, gen_all_result, [search results])"""
     cur = None
@@ -738,6 +807,7 @@ def check_sweep_group(ctx, posr, genr, sr, k):
     succ10 = set(strip10("%s|%s" % (m, s)) for m, s in succ)
     secs = C.impl_body(sr["op"], sr["I"]).split("~~")
     prev = None
+    pf = None
     where = [posr["op"], sr["op"]]
     for sec in secs:
         kk, _, body = sec.partition("~")
@@ -749,11 +819,13 @@ def check_sweep_group(ctx, posr, genr, sr, k):
             continue
         if d.get("tbl") != tbl:
             ctx.fail("repetition-record-not-restored", where=w, before=tbl, after=d.get("tbl"))
-        for s in d["sent_list"]:
+        for s in d["all_sent"]:
             if strip10(s) not in succ10:
                 ctx.fail("sent-move-not-a-root-successor", where=w, sent=s[:200])
-        if succ and not d["sent_list"]:
+        if succ and not d["all_sent"]:
             ctx.fail("no-move-sent", where=w)
+        if not d["info_list"] and d["sent_list"] and d["sent_list"][0] != d["fallback"]:
+            ctx.fail("fallback-move-changed", where=w, first=d["fallback"][:60], later=d["sent_list"][0][:60])
         if d["info_list"]:
             if len(d["sent_list"]) != len(d["info_list"]):
                 ctx.fail("sent-vs-info-count", where=w, sent=len(d["sent_list"]), info=len(d["info_list"]))
@@ -771,7 +843,10 @@ def check_sweep_group(ctx, posr, genr, sr, k):
                 ctx.fail("larger-allowance-changed-reported-improvements", where=w, smaller=pi[-2:], larger=d["info_list"][:len(pi)][-2:])
             if pi and d["sent_list"][:len(ps)] != ps:
                 ctx.fail("larger-allowance-changed-sent-moves", where=w)
+            if pf != d["fallback"]:
+                ctx.fail("larger-allowance-changed-fallback-move", where=w)
         prev = (d["info_list"], d["sent_list"])
+        pf = d["fallback"]
     ctx.sample({"pos": posr["op"][:120], "sweep": sr["op"], "runs": len(secs)})
 
 
@@ -788,6 +863,7 @@ def check_C07(ctx, deep=False):
     ops = search_positions(ctx, n, 30, "sweep %d %d" % (K, stride))
     if not q:
         ops += search_positions(ctx, 12, 30, "sweep 400 1")
+    ops += forced_positions(ctx, 8 if q else 80, "sweep 30 1")
     res = C.run_ops(ops)
     t2_search(ctx, res)
     for posr, genr, srs in group_by_pos(res):
@@ -1211,6 +1287,7 @@ def check_C03(ctx, deep=False):
         oracle_state(ctx, r)       # a legal move that cannot be picked by its own text is mis-described
     # in-process part
     sops = search_positions(ctx, 10 if q else 60, 30, "sweep 60 3", with_rep=False)
+    sops += forced_positions(ctx, 8 if q else 60, "sweep 14 1")
     sres = C.run_ops(sops)
     t2_search(ctx, sres)
     k = consts()
@@ -1247,6 +1324,13 @@ def check_C08(ctx, deep=False):
             plans.append((p, clock, rnd.choice([None, 1, 5, 30]), True))
     for p in poslines:
         plans.append((p, rnd.choice([1, 40, 150, 700, 1600, 3100]), rnd.choice([None, 1, 2, 30]), False))
+    # positions whose capture search is enormous (lattices of mutually protected queens, SPEC-checked
+    # variants): the first evaluation alone takes 0.5 s .. minutes, the slice here is 1 .. 50 ms
+    heavy = [o[4:] for o in C.genops("heavy", ctx.seed, 8 if q else 40) if o.startswith("pos ")]
+    ctx.stats["heavy_quiescence_positions"] = len(heavy)
+    for p in heavy:
+        for clock in ([150, 250] if q else [101, 150, 250, 700, 1600]):
+            plans.append((p, clock, None, False))
 
     def one(plan):
         pos, clock, mtg, terminal = plan
@@ -1360,6 +1444,7 @@ def check_C08(ctx, deep=False):
     for t in TERMINAL:
         tops += ["pos " + t, "gen all", "sweep 6 1"]
     tops += search_positions(ctx, 6 if q else 40, 30, "sweep 40 1", with_rep=False)
+    tops += forced_positions(ctx, 8 if q else 60, "sweep 14 1")
     res = C.run_ops(tops)
     t2_search(ctx, res)
     for posr, genr, srs in group_by_pos(res):
@@ -1367,7 +1452,7 @@ def check_C08(ctx, deep=False):
         for sr in srs:
             for sec in C.impl_body(sr["op"], sr["I"]).split("~~"):
                 d = parse_search(sec.partition("~")[2])
-                if bool(d["sent_list"]) != bool(succ):
+                if bool(d["all_sent"]) != bool(succ):
                     ctx.fail("sent-iff-root-has-a-move", where=[posr["op"], sr["op"], sec[:12]], root_moves=len(succ), sent=len(d["sent_list"]))
 
 
@@ -1382,6 +1467,94 @@ TRAFFIC = [
     ["position fen r3k2r/8/8/8/8/8/8/R3K2R w KQkq - 0 1 moves e1g1", "go wtime 150 btime 150", "go wtime 150 btime 150", "isready"],
     ["ucinewgame", "ucinewgame", "position startpos", "go movestogo 3", "debug on"],
 ]
+
+
+CONT_STEMS = [
+    "startpos",
+    "fen r3k2r/pppq1ppp/2npbn2/2b1p3/2B1P3/2NPBN2/PPPQ1PPP/R3K2R w KQkq - 0 1",
+    "fen r3k2r/pppq1ppp/2npbn2/2b1p3/2B1P3/2NPBN2/PPPQ1PPP/R3K2R b KQkq - 0 1",
+    "fen r3k2r/ppp2ppp/2n2n2/3pp3/3PP3/2N2N2/PPP2PPP/R3K2R w KQkq - 0 1",
+    "fen r3k2r/1pp2pp1/p1n2n1p/3Pp3/4P3/2N2N2/PPP2PPP/R3K2R w KQkq e6 0 1",
+    "fen r3k2r/ppp2ppp/8/3pP3/8/8/PPP2PPP/R3K2R w KQkq d6 0 1",
+    "fen r3k2r/8/8/8/8/8/1p6/R3K2R b KQkq - 0 1",
+    "fen rnbqk2r/pppp1ppp/5n2/2b1p3/2B1P3/5N2/PPPP1PPP/RNBQK2R w KQkq - 4 4",
+    "fen r1bqk2r/pppp1ppp/2n2n2/2b1p3/2B1P3/2N2N2/PPPP1PPP/R1BQK2R b KQkq - 0 1",
+    "fen r3k2r/p1ppqpb1/bn2pnp1/3PN3/1p2P3/2N2Q1p/PPPBBPPP/R3K2R w KQkq - 0 1",
+    "fen rnbq1k1r/pp1Pbppp/2p5/8/2B5/8/PPP1NnPP/RNBQK2R w KQ - 1 8",
+    "fen r4rk1/1pp1qppp/p1np1n2/2b1p1B1/2B1P1b1/P1NP1N2/1PP1QPPP/R4RK1 w - - 0 10",
+    "fen 8/2p5/3p4/KP5r/1R3p1k/8/4P1P1/8 w - - 0 1",
+    "fen r3k2r/2pp1pp1/8/pP4Pp/8/8/P1PP1P1P/R3K2R w KQkq a6 0 1",
+]
+
+
+def continuation_sessions(ctx, plies):
+    """GUI-style games: ONE persistent process receives the growing `position <stem> moves ...` + `go`
+    before each of its moves (playing the first side, the second side, or both), exactly as a GUI
+    drives an engine; every such request is also put to a FRESH process.  Zero allowance: the two
+    answers must be identical at every ply (C16: the reply is a function of the position command and
+    the go parameters alone).  The reference game follows the fresh answers.  Stems have castling
+    rights, pending en passant, promotions and captures, so the engine's own replies include every
+    kind of move."""
+    cache = {}
+
+    def fresh_answer(cmd):
+        if cmd in cache:
+            return cache[cmd]
+        e = S.Engine()
+        try:
+            if not S.handshake(e):
+                return None
+            e.send(cmd)
+            r = S.go_and_wait(e, "go", 6)
+            a = r["best"] if r["answered"] else None
+        finally:
+            e.kill()
+        cache[cmd] = a
+        return a
+
+    def one(plan):
+        stem, mode = plan
+        out = []
+        a = S.Engine()
+        try:
+            if not S.handshake(a):
+                return [("no-handshake", plan, None)]
+            moves = []
+            transcript = []
+            for ply in range(plies):
+                cmd = "position " + stem + ((" moves " + " ".join(moves)) if moves else "")
+                ref = fresh_answer(cmd)
+                if ref is None:
+                    out.append(("fresh-unanswered", plan, {"command": cmd}))
+                    break
+                mine = (mode == "both") or (mode == "first" and ply % 2 == 0) or (mode == "second" and ply % 2 == 1)
+                if mine:
+                    a.send(cmd)
+                    r = S.go_and_wait(a, "go", 6)
+                    transcript += [cmd, "go", "-> " + str(r.get("best"))]
+                    if not r["answered"]:
+                        out.append(("persistent-unanswered", plan, {"transcript": transcript}))
+                        break
+                    out.append(("cmp", plan, {"ply": ply, "same": r["best"] == ref}))
+                    if r["best"] != ref:
+                        out.append(("answer-depends-on-earlier-position-go-traffic", plan,
+                                    {"transcript": transcript[-12:], "fresh_process_answer": ref, "persistent_process_answer": r["best"]}))
+                        break
+                mv = ref.split()[1] if len(ref.split()) > 1 else "0000"
+                if mv in ("0000", "(none)"):
+                    break
+                moves.append(mv)
+            return out
+        finally:
+            a.kill()
+    plans = [(st, mode) for st in CONT_STEMS for mode in ("first", "second", "both")]
+    for res in S.run_parallel(one, plans, workers=8):
+        for kind, plan, d in res:
+            if kind == "cmp":
+                ctx.count("continuation_requests")
+                ctx.case(("cont", plan, d["ply"]), True)
+            else:
+                ctx.fail(kind, stem=plan[0], persistent_plays=plan[1], **(d or {}))
 
 
 def check_C16(ctx, deep=False):
@@ -1460,6 +1633,7 @@ def check_C16(ctx, deep=False):
                 if x[:m] != y[:m]:
                     ctx.fail("reported-improvements-depend-on-history", which=name, position=pos, traffic=traffic,
                              a=x[:m][-2:], b=y[:m][-2:])
+    continuation_sessions(ctx, 10 if q else 24)
     # static audit of process-global state (T3)
     hits = []
     for fn in sorted(os.listdir(os.path.join(C.REPO, "src"))):
